@@ -125,7 +125,8 @@ class ScalarFormatter(object):
         _log_abs_x = -1
         if _rounded_x:
             _log_abs_x = np.log10(np.abs(_rounded_x))
-        _val_sig = int(self._sig - int(-np.floor(_log_abs_x)) + self._n_significant_digits - 1)
+        # number of significant digits of the value down to the last displayed digit of the uncertainty
+        _val_sig = int(self._sig - int(-np.floor(_log_abs_x)) + 1)
 
         _val_sig = max(_val_sig, 0)
 
